@@ -55,6 +55,13 @@ def execute(sc: dict, seed: int) -> dict:
     nontrivial: list[str] = []
     try:
         bd = _digest({"n": base["nodes"], "c": base["context"], "d": base["init_data"]})
+        # bookkeeping cross-check on an UNTRACED run (C01/C02 territory): decides the discard, so that a tracing defect
+        # in the fault-free run is reported by the oracle below instead of emptying the sample
+        rr0 = harness.run_scenario(dict(base, faults=[]), w, trace_mode="none", name="untraced")
+        if not rr0["outcome"]["ok"] or len(rr0["exec_log"]) != len(base["nodes"]):
+            stats["discarded_base_mismatch"] = 1
+            return {"violations": [], "stats": stats, "digests": [bd], "nontrivial": [],
+                    "note": f"base mismatch: {rr0['outcome'].get('exc_type')}: {rr0['outcome'].get('exc_msg')}"}
         subs: list[tuple[str, int, dict]] = [("none", -1, dict(base, faults=[]))]
         for kind, k in gen.applicable_failures(base):
             subs.append((kind, k, gen.apply_failure(base, kind, k)))
@@ -68,10 +75,10 @@ def execute(sc: dict, seed: int) -> dict:
             stats["subruns"] = stats.get("subruns", 0) + 1
             stats["sim_seconds"] = stats.get("sim_seconds", 0.0)
             if kind == "none":
-                if not oc["ok"] or len(rr["exec_log"]) != len(base["nodes"]):
-                    stats["discarded_base_mismatch"] = 1
-                    return {"violations": [], "stats": stats, "digests": [bd], "nontrivial": [],
-                            "note": f"base mismatch: {oc.get('exc_type')}: {oc.get('exc_msg')}"}
+                if not oc["ok"]:
+                    # the same pipeline returned when untraced: a traced fault-free run must return as well
+                    viols.append(oracles.V("exception", "traced_fault_free_run_raised", f"untraced run returned, traced run (detail={detail}, mode={mode}) "
+                                           f"raised {oc.get('exc_type')}: {oc.get('exc_msg')}"))
                 nontrivial.append(f"{bd}/none")
             else:
                 f = s["fail"]
